@@ -9,6 +9,8 @@ of two, so binary64 arithmetic is exact and results are compared as exact ration
 """
 from __future__ import annotations
 
+import collections
+import types
 from fractions import Fraction
 
 import numpy as np
@@ -34,7 +36,29 @@ CASE_TYPES = {
     "chk_process_outcome": "nat * list N * key * res (list Z)",
     "chk_process_outcome_v2": "list N * N * N * list Z",
     "chk_from_bytes": "list N * N",
+    "chk_reconstruct_tol": "robj * list Q * oobj * res (list Q)",
+    "chk_cog": "letters * list letters * list nat * list N",
+    "chk_lookup": "list lgroup * list letters * list (list (nat * nat))",
 }
+LETTER = {"I": 0, "X": 1, "Y": 2, "Z": 3}
+
+
+def letters(label):
+    """Pauli label (big-endian text) -> one letter code per qubit index"""
+    return [LETTER[c] for c in reversed(label)]
+
+
+def derive_cog(general, members):
+    """(pauli_indices, bitmasks) straight from the labels: measured = non-identity qubits of the general observable,
+    ascending; bit i of a member's mask <=> the member is non-identity on the i-th measured qubit."""
+    n = len(general)
+    idx = [q for q in range(n) if general[n - 1 - q] != "I"]
+    masks = [sum(1 << i for i, q in enumerate(idx) if m[n - 1 - q] != "I") for m in members]
+    return idx, masks
+
+
+def derive_lookup(groups, label):
+    return [(m, k) for m, g in enumerate(groups) for k, x in enumerate(g["members"]) if x == label]
 LABEL_POOL = [0, 1, 2, "A", "B", "foo", (1, 2), ("a", 0), None, 3.5, True, frozenset([1]), -7, "", "0b1"]
 SAFE = set("0123456789abcdefABCDEFxXoOgGzZ _")
 
@@ -105,15 +129,32 @@ def build_data(d):
     for ob_bits, qp_bits, shots in zip(d["obs_bits"], d["qpd_bits"], d["pubs"]):
         ob = mk_bitarray([s[0] for s in shots], ob_bits)
         qp = mk_bitarray([s[1] for s in shots], qp_bits)
-        pubs.append(SamplerPubResult(DataBin(observable_measurements=ob, qpd_measurements=qp, shape=())))
+        regs = {}
+        if d.get("extra"):  # an unrelated register of the same shot count, listed first
+            regs["meas"] = mk_bitarray([(s[0] * 7 + s[1] + 1) % 8 for s in shots], 3)
+        if d.get("order", "obs_first") == "qpd_first":  # the order real subexperiments have
+            regs["qpd_measurements"] = qp
+            regs["observable_measurements"] = ob
+        else:
+            regs["observable_measurements"] = ob
+            regs["qpd_measurements"] = qp
+        pubs.append(SamplerPubResult(DataBin(shape=(), **regs)))
     return PrimitiveResult(pubs)
+
+
+def wrap_mapping(d, how):
+    if how == "ordered":
+        return collections.OrderedDict(d)
+    if how == "proxy":
+        return types.MappingProxyType(d)
+    return d
 
 
 def build_results(r):
     if r["type"] == "leaf":
         return build_data(r["data"])
     if r["type"] == "map":
-        return {untag(l): build_data(d) for l, d in r["items"]}
+        return wrap_mapping({untag(l): build_data(d) for l, d in r["items"]}, r.get("mapping"))
     return {"none": None, "list": [1, 2], "str": "results"}[r["what"]]
 
 
@@ -121,12 +162,13 @@ def build_obs(o):
     if o["type"] == "paulilist":
         return mk_plist(o["paulis"])
     if o["type"] == "map":
-        return {untag(l): mk_plist(ps) for l, ps in o["items"]}
+        return wrap_mapping({untag(l): mk_plist(ps) for l, ps in o["items"]}, o.get("mapping"))
     return {"none": None, "list": ["ZZ", "XX"], "str": "ZZ"}[o["what"]]
 
 
-def build_coeffs(cs):
-    return [(float(unfr(c)), WeightType[w]) for c, w in cs]
+def build_coeffs(cs, container="list"):
+    out = [(float(unfr(c)), WeightType[w]) for c, w in cs]
+    return tuple(out) if container == "tuple" else out
 
 
 # ----------------------------------------------------------------------------------------------
@@ -143,31 +185,38 @@ class Monitor:
 
 
 def part_of(label_id, plist, mon):
-    """(coq literal, aux json) of one partition from its sub-observable PauliList."""
+    """(coq literal, aux json) of one partition from its sub-observable PauliList.
+
+    Only the GROUP STRUCTURE (which observables share a group, the group's general observable) is read from the real
+    ObservableCollection; the model recomputes pauli_indices, bitmasks and lookup from the letters.  The real values are
+    compared with label-derived ones by monitors here and by the `cog` / `lookup` correspondence streams."""
     phases = [int(p.phase) for p in plist]
     if any(phases):
         # ObservableCollection cannot be built; the implementation refuses before it needs one
-        return Raw(f"(P {label_id} {coq(phases)} [] [])"), dict(groups=None)
+        return Raw(f"(PL {label_id} {coq(phases)} [] [])"), dict(groups=None)
     oc = ObservableCollection(plist)
-    groups = []
     aux_groups = []
     for g in oc.groups:
-        npi = len(g.pauli_indices)
-        masks = [int(m) for m in g.pauli_bitmasks]
-        mon.contract("bitmask_fits_measured_bits", all(0 <= m < (1 << npi) for m in masks))
-        groups.append((npi, [Nc(m) for m in masks]))
-        aux_groups.append(dict(general=g.general_observable.to_label(),
-                               members=[p.to_label() for p in g.commuting_observables]))
-    lookup = []
+        gen = g.general_observable.to_label()
+        members = [p.to_label() for p in g.commuting_observables]
+        mon.contract("group_labels_have_phase_0", g.general_observable.phase == 0 and all(p.phase == 0 for p in g.commuting_observables))
+        union = "".join(next((m[i] for m in members if m[i] != "I"), "I") for i in range(len(gen)))
+        mon.contract("general_observable_is_union_of_members", gen == union)
+        idx, masks = derive_cog(gen, members)
+        mon.contract("pauli_indices_are_the_measured_qubits", [int(i) for i in g.pauli_indices] == idx)
+        mon.contract("bitmasks_match_labels", [int(m) for m in g.pauli_bitmasks] == masks)
+        aux_groups.append(dict(general=gen, members=members, impl_indices=[int(i) for i in g.pauli_indices],
+                               impl_masks=[int(m) for m in g.pauli_bitmasks]))
+    sub_labels = [p.to_label() for p in plist]
+    impl_lookup = []
     for k in range(len(plist)):
         locs = [(int(m), int(n)) for m, n in oc.lookup[plist[k]]]
-        ok = len(locs) >= 1 and all(
-            m < len(oc.groups) and n < len(oc.groups[m].commuting_observables)
-            and oc.groups[m].commuting_observables[n] == plist[k] for m, n in locs)
-        mon.contract("lookup_locations_hold_the_observable", ok)
-        lookup.append(locs)
-    lit = Raw(f"(P {label_id} {coq(phases)} {coq(groups)} {coq(lookup)})")
-    return lit, dict(groups=aux_groups)
+        mon.contract("lookup_matches_labels", locs == derive_lookup(aux_groups, sub_labels[k]))
+        mon.contract("lookup_has_exactly_one_location", len(locs) == 1)
+        impl_lookup.append(locs)
+    groups_lit = [(letters(g["general"]), [letters(m) for m in g["members"]]) for g in aux_groups]
+    lit = Raw(f"(PL {label_id} {coq(phases)} {coq(groups_lit)} {coq([letters(x) for x in sub_labels])})")
+    return lit, dict(groups=aux_groups, subobs=sub_labels, impl_lookup=impl_lookup)
 
 
 def data_lit(obj, d, mon):
@@ -211,7 +260,7 @@ def execute(spec, mon=None):
     ids = Interner()
     obs = build_obs(spec["obs"])
     results = build_results(spec["results"])
-    coeffs = build_coeffs(spec["coeffs"])
+    coeffs = build_coeffs(spec["coeffs"], spec.get("coeff_container", "list"))
     r = call_canon(reconstruct_expectation_values, results, coeffs, obs)
     impl = canon_impl(r)
     aux = {}
@@ -221,7 +270,7 @@ def execute(spec, mon=None):
         phases = [int(p.phase) for p in obs]
         sub = decompose_observables(obs, "A" * len(obs[0]))["A"]
         if any(phases):
-            olit = Raw(f"(OList (P 0 {coq(phases)} [] []))")
+            olit = Raw(f"(OList (PL 0 {coq(phases)} [] []))")
             aux["parts"] = [dict(groups=None)]
         else:
             plit, a = part_of(0, sub, mon)
